@@ -402,7 +402,7 @@ func (lm *levelManager) compactL0() {
 	}
 
 	// merge sstables
-	mergedEntries := kway.Merge(dataBlockList...)
+	mergedEntries := kway.MergeAll(dataBlockList...)
 
 	discarded := lm.discardStaleEntries(mergedEntries)
 
@@ -489,7 +489,7 @@ func (lm *levelManager) compactLN(n int) {
 	dataBlockList = append(dataBlockList, dataBlockLN.Entries)
 
 	// merge sstables
-	mergedEntries := kway.Merge(dataBlockList...)
+	mergedEntries := kway.MergeAll(dataBlockList...)
 
 	discarded := lm.discardStaleEntries(mergedEntries)
 
